@@ -4,6 +4,7 @@ package main
 
 import (
 	"bytes"
+	"fmt"
 	"math/big"
 
 	vmcommon "github.com/ElrondNetwork/elrond-vm-common"
@@ -23,6 +24,14 @@ func scAddr(tag byte) []byte {
 	return a
 }
 
+// metaSC: 32-byte address of the shape of a metachain system contract: 29 zero bytes... index byte, then 0xffff
+func metaSC(idx, a, b byte) []byte {
+	x := make([]byte, 32)
+	x[9] = 1
+	x[29], x[30], x[31] = idx, a, b
+	return x
+}
+
 type universe struct {
 	U        [][]byte // users: U[0],U[1] on shard 0, U[2],U[3] on shard 1 (when 2+ shards)
 	K        [][]byte // contracts: K[0] shard 0, K[1] shard 1
@@ -35,6 +44,16 @@ type universe struct {
 	NFTs     [][]byte
 	Alias    [][]byte // token ids that alias each other's keys when concatenated with a nonce
 	AllRoles [][]byte
+	// "rich" features (populateRich): inputs that ordinary holdings never reach
+	MetaSCs [][]byte // metachain system-contract-shaped addresses other than the ESDT system contract (staking, delegation manager, ...)
+	SysVar  []byte   // 0xff*31 || 0x01: passes IsSystemAccountAddress (30-byte prefix) but is not the canonical system account
+	HiTok   []byte   // an SFT identifier whose nonces run past 256 (nonces whose big-endian form ends in a zero byte)
+	rich    bool     // set by populateRich: the generators then also draw from the rich pools
+}
+
+// amounts that do not fit 64 bits
+func big64(extra uint64) []byte {
+	return new(big.Int).Add(new(big.Int).Lsh(big.NewInt(1), 64), new(big.Int).SetUint64(extra)).Bytes()
 }
 
 func newUniverse() *universe {
@@ -52,6 +71,10 @@ func newUniverse() *universe {
 	u.Fung = [][]byte{[]byte("TKA-a1b2c3"), []byte("TKB-0000ff"), []byte("LONGTOKEN-0a1b2c")} // identifiers of different lengths (a stale key buffer shows only then)
 	u.NFTs = [][]byte{[]byte("NFA-112233"), []byte("SFT-445566")}
 	u.Alias = [][]byte{[]byte("AB"), []byte("ABC"), []byte("ABCD"), []byte("ABC-12345"), []byte("ABC-123456")}
+	u.MetaSCs = [][]byte{metaSC(1, 0xff, 0xff), metaSC(4, 0xff, 0xff), metaSC(0xff, 0xff, 0xff), metaSC(3, 0xff, 0xff)}
+	u.MetaSCs[2][28] = 0x02 // delegation-contract shape ...02ffffff
+	u.SysVar = append(bytes.Repeat([]byte{0xff}, 31), 0x01)
+	u.HiTok = []byte("HNC-778899")
 	for _, r := range []string{"ESDTRoleLocalMint", "ESDTRoleLocalBurn", "ESDTRoleNFTCreate", "ESDTRoleNFTAddQuantity", "ESDTRoleNFTBurn", "ESDTRoleNFTAddURI", "ESDTRoleNFTUpdateAttributes"} {
 		u.AllRoles = append(u.AllRoles, []byte(r))
 	}
@@ -79,6 +102,10 @@ func (u *universe) stdWorld(nShards int, sysShard uint32, gas map[string]map[str
 	w.shardTab[string(u.SC)] = metaShard
 	w.shardTab[string(u.MetaUser)] = metaShard
 	w.shardTab[string(u.SYS)] = sysShard
+	for _, a := range u.MetaSCs {
+		w.shardTab[string(a)] = metaShard
+	}
+	w.shardTab[string(u.SysVar)] = sysShard
 	w.shardDflt = 0
 	w.dns = [][]byte{u.DNS}
 	w.payTab[string(u.K[0])] = 'Y'
@@ -143,6 +170,124 @@ func (u *universe) populate(w *hWorld) {
 	mk(u.U[0], u.NFTs[0], 1, "n1")
 	mk(u.U[0], u.NFTs[1], 50, "s1")
 	mk(u.U[0], u.NFTs[1], 7, "s2")
+}
+
+// populateRich adds, on top of populate, the holdings that ordinary use never produces:
+//   - balances that do not fit 64 bits (fungible Fung[1] at U[1] and U[2]; an SFT entry of NFTs[1] at U[0]),
+//   - an SFT collection (HiTok, creator U[2]) whose counter has passed 256: U[2] keeps nonces 1, 2, 255, 256, 257 (the others are
+//     burnt again), so that nonces whose big-endian form ends in a zero byte, and their small neighbours, are live,
+//   - a destination (U[3]) that already holds part of HiTok#256 and of NFTs[1]#1.
+// All through real calls of the library, so the resulting world is reachable.
+func (u *universe) populateRich(w *hWorld) {
+	u.rich = true
+	mustOK(w.sys(u, u.U[1], "ESDTTransfer", u.Fung[1], big64(1000)), "whale issue")
+	mustOK(w.sys(u, u.U[2], "ESDTTransfer", u.Fung[1], new(big.Int).Lsh(big.NewInt(1), 70).Bytes()), "whale issue")
+	mustOK(w.tx(u.U[0], u.U[0], "ESDTNFTCreate", bigGas, u.NFTs[1], big64(77), []byte("whale"), be(250), []byte("hash-whale"), []byte("attr"), []byte("uri1")), "whale create")
+	args := append([][]byte{u.HiTok}, u.AllRoles...)
+	mustOK(w.sys(u, u.U[2], "ESDTSetRole", args...), "setrole hi")
+	for n := uint64(1); n <= 254; n++ {
+		mustOK(w.tx(u.U[2], u.U[2], "ESDTNFTCreate", bigGas, u.HiTok, be(9), []byte("hi"), be(1), []byte(fmt.Sprintf("hash-hi-%d", n)), []byte("attr"), []byte("uri")), "hi create")
+		if n > 2 && n < 254 {
+			mustOK(w.tx(u.U[2], u.U[2], "ESDTNFTBurn", bigGas, u.HiTok, be(n), be(9)), "hi burn")
+		}
+	}
+}
+
+// richTour: a fixed sequence of operations executed UNDER THE MONITORS at the start of every walk over a rich world (each step is built
+// from the world as it is then; messages emitted by a tour step are delivered right after it).  It crosses the 255/256 nonce boundary,
+// moves entries whose nonce ends in a zero byte and quantities beyond 64 bits over every route, names nonces 512 / 65536 that do not
+// exist (must be rejected and change nothing), lists one cell twice in a multi-transfer, lets metachain contracts other than the ESDT
+// system contract try system-only operations and plain transfers, and addresses a pause to the non-canonical system-account address.
+func richTour(u *universe, w *hWorld) []func() *worldOp {
+	tx := func(caller, rcpt []byte, fn string, args ...[]byte) func() *worldOp {
+		return func() *worldOp {
+			return &worldOp{Kind: opTx, Call: w.mkCall(w.shardOf(caller), fn, caller, rcpt, args, bigGas)}
+		}
+	}
+	sysAs := func(caller []byte, shardOfWho, rcpt []byte, fn string, args ...[]byte) func() *worldOp {
+		return func() *worldOp {
+			sh := w.shardOf(shardOfWho)
+			if int(sh) >= w.nShards {
+				sh = 0
+			}
+			return &worldOp{Kind: opSys, Call: &callSpec{Shard: sh, Fn: fn, Caller: caller, Rcpt: rcpt, Args: args, Value: big.NewInt(0), Gas: 0,
+				Snd: false, Dst: true, FailAt: -1}}
+		}
+	}
+	cr, hi := u.U[2], u.HiTok
+	create := tx(cr, cr, "ESDTNFTCreate", hi, be(9), []byte("hi"), be(1), []byte("hash-hi-t"), []byte("attr"), []byte("uri"))
+	var l []func() *worldOp
+	l = append(l, create, create, create, create) // nonces 255, 256, 257, 258
+	for _, n := range []uint64{256, 1, 255, 512, 65536, 2} {
+		l = append(l,
+			tx(cr, cr, "ESDTNFTTransfer", hi, be(n), be(2), u.U[3]), // same shard (2+ shards) or the only shard
+			tx(cr, cr, "ESDTNFTTransfer", hi, be(n), be(1), u.U[0]), // towards shard 0
+			tx(cr, cr, "ESDTNFTAddQuantity", hi, be(n), be(3)),
+			tx(cr, cr, "ESDTNFTBurn", hi, be(n), be(1)),
+			tx(cr, cr, "ESDTNFTAddURI", hi, be(n), []byte("uri-t")),
+			tx(cr, cr, "ESDTNFTUpdateAttributes", hi, be(n), []byte("attr-t")),
+			tx(cr, cr, "MultiESDTNFTTransfer", tkMulti(u.U[1], hi, be(n), be(1), u.Fung[1], nil, big64(3))...),
+		)
+	}
+	l = append(l, tx(u.U[3], u.U[3], "ESDTNFTTransfer", hi, be(256), be(1), cr)) // back to a holder that still has part of it
+	// quantities beyond 64 bits over every route
+	l = append(l,
+		tx(u.U[1], u.U[0], "ESDTTransfer", u.Fung[1], big64(5)),
+		tx(u.U[1], u.U[2], "ESDTTransfer", u.Fung[1], big64(6)),
+		tx(u.U[1], u.U[1], "MultiESDTNFTTransfer", tkMulti(u.U[2], u.Fung[1], nil, big64(7), u.Fung[0], nil, be(3))...),
+		tx(u.U[1], u.U[1], "MultiESDTNFTTransfer", tkMulti(u.U[0], u.Fung[1], nil, big64(8))...),
+		tx(u.U[0], u.U[0], "ESDTNFTTransfer", u.NFTs[1], be(4), big64(9), u.U[2]),
+		tx(u.U[0], u.U[0], "ESDTNFTTransfer", u.NFTs[1], be(4), big64(2), u.U[1]),
+		tx(u.U[0], u.U[0], "MultiESDTNFTTransfer", tkMulti(u.U[3], u.NFTs[1], be(4), big64(1), u.NFTs[1], be(1), be(2))...),
+		tx(u.U[2], u.U[2], "ESDTLocalBurn", u.Fung[1], big64(1)),
+		tx(u.U[2], u.U[2], "ESDTLocalMint", u.Fung[1], big64(2)),
+		tx(u.U[2], u.SC, "ESDTBurn", u.Fung[1], big64(1)),
+		tx(u.U[0], u.U[0], "ESDTNFTBurn", u.NFTs[1], be(4), big64(1)),
+		tx(u.U[0], u.U[0], "ESDTNFTAddQuantity", u.NFTs[1], be(4), big64(4)),
+	)
+	// nonce arguments wider than 8 bytes (non-zero multiples of 2^64 and 2^64+1), on fungible tokens the caller holds with every role, and on NFTs
+	for _, nb := range [][]byte{big64(0), new(big.Int).Lsh(big.NewInt(1), 72).Bytes(), big64(1)} {
+		for _, tk := range [][]byte{u.Fung[0], u.NFTs[1]} {
+			l = append(l,
+				tx(u.U[0], u.U[0], "ESDTNFTUpdateAttributes", tk, nb, []byte("attr-w")),
+				tx(u.U[0], u.U[0], "ESDTNFTAddURI", tk, nb, []byte("uri-w")),
+				tx(u.U[0], u.U[0], "ESDTNFTAddQuantity", tk, nb, be(1)),
+				tx(u.U[0], u.U[0], "ESDTNFTBurn", tk, nb, be(1)),
+				tx(u.U[0], u.U[0], "ESDTNFTTransfer", tk, nb, be(1), u.U[1]),
+				tx(u.U[0], u.U[0], "MultiESDTNFTTransfer", tkMulti(u.U[1], tk, nb, be(1))...),
+			)
+		}
+	}
+	// one cell listed twice: each quantity within the holding, the sum above it
+	l = append(l,
+		tx(u.U[0], u.U[0], "MultiESDTNFTTransfer", tkMulti(u.U[1], u.Fung[0], nil, be(600), u.Fung[0], nil, be(600))...),
+		tx(u.U[0], u.U[0], "MultiESDTNFTTransfer", tkMulti(u.U[2], u.NFTs[1], be(1), be(30), u.NFTs[1], be(1), be(30))...),
+		tx(u.U[0], u.U[0], "MultiESDTNFTTransfer", tkMulti(u.U[3], u.Fung[2], nil, be(400), u.Fung[2], nil, be(400), u.Fung[2], nil, be(400))...),
+	)
+	// metachain contracts other than the ESDT system contract: system-only operations and plain transfers on the destination side
+	for _, m := range u.MetaSCs {
+		l = append(l,
+			sysAs(m, u.U[0], u.U[0], "ESDTSetRole", u.Fung[2], []byte("ESDTRoleLocalMint")),
+			sysAs(m, u.U[0], u.U[0], "ESDTUnSetRole", u.Fung[0], []byte("ESDTRoleLocalMint")),
+			sysAs(m, u.U[0], u.U[0], "ESDTFreeze", u.Fung[0]),
+			sysAs(m, u.U[0], u.U[0], "ESDTWipe", u.Fung[0]),
+			sysAs(m, u.U[0], u.SYS, "ESDTPause", u.Fung[0]),
+			sysAs(m, u.U[0], u.U[0], "ESDTNFTCreateRoleTransfer", u.NFTs[0], u.U[1]),
+			sysAs(m, u.U[3], u.U[3], "ESDTTransfer", u.Fung[0], be(3)),
+			sysAs(m, u.K[1], u.K[1], "ESDTTransfer", u.Fung[0], be(3)),
+			sysAs(m, u.K[0], u.K[0], "ESDTNFTTransfer", u.NFTs[1], be(1), be(1), validNFTPayload(1, 1, u.U[0])),
+			sysAs(m, u.K[0], u.K[0], "MultiESDTNFTTransfer", be(1), u.Fung[0], []byte{0}, be(2)),
+		)
+	}
+	// a pause addressed to the non-canonical system-account address, a transfer of the token on that shard, the unpause
+	l = append(l,
+		sysAs(u.SC, u.U[0], u.SysVar, "ESDTPause", u.Fung[2]),
+		tx(u.U[0], u.U[1], "ESDTTransfer", u.Fung[2], be(1)),
+		tx(u.U[0], u.U[0], "ESDTLocalMint", u.Fung[2], be(1)),
+		sysAs(u.SC, u.U[0], u.SysVar, "ESDTUnPause", u.Fung[2]),
+		tx(u.U[0], u.U[1], "ESDTTransfer", u.Fung[2], be(1)),
+	)
+	return l
 }
 
 // ---- pools ----
